@@ -69,6 +69,9 @@ type FuncContract struct {
 	Bounded   string // non-empty: this unit is a bounded check with the stated bound
 	Establishes []string
 	ThoroughOnly bool
+	CbModifies   []Clause // what a call through a function value (callback) may modify
+	CbEnsures    []Clause // what is assumed after such a call (the callbacks' contract)
+	CbRequires   []Clause // what must hold before such a call
 	PrefixOnly   bool // obligations are collected until the translation leaves the subset; the rest is reported as not verified
 	View         string
 	Views        []string          // alternative (abstract) contracts of callees this unit is verified against
@@ -154,7 +157,7 @@ func newContracts() *Contracts {
 		Ghosts: map[string]*GhostVar{}, Externs: map[string]*FuncContract{}, Writers: map[string][]string{}, Scenarios: map[string]*Scenario{}, ImportsByPkg: map[string][]string{}}
 }
 
-var kwRe = regexp.MustCompile(`^(import|define|ghost|func|extern|lemma|axiom|fact|scenario|do|establishes|writers|callers-inline|thorough-only|prefix-only|views|at-call|allow-extern|props|requires|ensures|modifies|nopanic|exact-conversions|trusted|inline|split|loop|assert|use|hyp|concl|timeout|bounded|opaque)\b`)
+var kwRe = regexp.MustCompile(`^(import|define|ghost|func|extern|lemma|axiom|fact|scenario|do|establishes|writers|callers-inline|thorough-only|prefix-only|callback-modifies|callback-ensures|callback-requires|views|at-call|allow-extern|props|requires|ensures|modifies|nopanic|exact-conversions|trusted|inline|split|loop|assert|use|hyp|concl|timeout|bounded|opaque)\b`)
 
 func parseExprSrc(src string) (ast.Expr, error) {
 	// ==> is written as implies(); allow `a ==> b` at top level as sugar, right-assoc
@@ -386,6 +389,24 @@ func (cs *Contracts) LoadContractFile(path string, pkgShort string) error {
 				cur.AtCall = map[string][]Clause{}
 			}
 			cur.AtCall[strings.TrimSpace(f[0])] = append(cur.AtCall[strings.TrimSpace(f[0])], c)
+		case "callback-modifies":
+			for _, part := range splitTop(r.text, ',') {
+				c, err := mkClause(rawClause{"modifies", part, r.line})
+				if err != nil {
+					return err
+				}
+				cur.CbModifies = append(cur.CbModifies, c)
+			}
+		case "callback-ensures", "callback-requires":
+			c, err := mkClause(r)
+			if err != nil {
+				return err
+			}
+			if r.kw == "callback-ensures" {
+				cur.CbEnsures = append(cur.CbEnsures, c)
+			} else {
+				cur.CbRequires = append(cur.CbRequires, c)
+			}
 		case "prefix-only":
 			cur.PrefixOnly = true
 		case "thorough-only":
